@@ -1272,8 +1272,13 @@ def fam_dbg(tier, seed):
     out.append(struct(mod, "DbgNames", 32, [
         field("_rsvd", [(0, 2)], T_uint(3)), field("__x", [(3, 3)], T_bool()), field("f0", [(4, 7)], T_uint(4)), field("x_", [(8, 15)], T_int(8)),
         field("_", [(16, 16)], T_bool(), access="r") if False else field("_busy", [(16, 16)], T_bool(), access="r"),
-        field("r#loop", [(17, 19)], T_uint(3)), field("a_very_long_field_name_with_many_parts", [(20, 23)], T_uint(4)), field("raw_value_", [(24, 31)], T_uint(8)),
+        field("r#loop", [(17, 19)], T_uint(3)), field("a_very_long_field_name_with_many_parts", [(20, 23)], T_uint(4)), field("r#mode", [(24, 27)], T_uint(4)),
+        field("r#raw_value_", [(28, 31)], T_uint(4)),
     ], debug=True, family="DBG"))
+    # raw identifiers that are not keywords (the label printed is the identifier as written)
+    out.append(struct(mod, "DbgRaw", 16, [field("r#mode", [(0, 3)], T_uint(4)), field("plain", [(4, 7)], T_uint(4)), field("r#level", [(8, 15)], T_int(8), access="r")],
+                      debug=True, family="DBG"))
+    out.append(struct(mod, "DbgRawD", 16, [field("r#speed", [(0, 7)], T_uint(8)), field("r#on", [(8, 8)], T_bool())], default={"form": "=", "value": 0x1FF}, debug=True, family="DBG"))
     # arbitrary base with debug
     out.append(struct(mod, "Dbg24", 24, [field("a", [(0, 11)], T_uint(12)), field("r#fn", [(23, 23)], T_bool())], debug=True, family="DBG"))
     # zero fields
